@@ -22,7 +22,8 @@ var anchors = []time.Time{
 type dspec struct {
 	sb, pb, ob byte
 	pk, pa     int // predicate kind (0 immutable, 1 temporal), anchor index
-	ok         int // object kind: 0 node, 1 text literal
+	ok         int // object kind: 0 node, 1 text literal, 2 int64 literal (value ob-'a'), 3 immutable predicate "ob"@[], 4 temporal predicate "ob"@[anchors[oa]]
+	oa         int // anchor index of a temporal predicate object
 	t          *triple.Triple
 }
 
@@ -57,18 +58,37 @@ func (d *dspec) build() *triple.Triple {
 		panic(err)
 	}
 	var o *triple.Object
-	if d.ok == 0 {
+	switch d.ok {
+	case 0:
 		n, err := node.NewNodeFromStrings("/u", string([]byte{d.ob}))
 		if err != nil {
 			panic(err)
 		}
 		o = triple.NewNodeObject(n)
-	} else {
+	case 1:
 		l, err := literal.DefaultBuilder().Build(literal.Text, string([]byte{d.ob}))
 		if err != nil {
 			panic(err)
 		}
 		o = triple.NewLiteralObject(l)
+	case 2:
+		l, err := literal.DefaultBuilder().Build(literal.Int64, int64(d.ob)-'a')
+		if err != nil {
+			panic(err)
+		}
+		o = triple.NewLiteralObject(l)
+	case 3:
+		op, err := predicate.NewImmutable(string([]byte{d.ob}))
+		if err != nil {
+			panic(err)
+		}
+		o = triple.NewPredicateObject(op)
+	default:
+		op, err := predicate.NewTemporal(string([]byte{d.ob}), anchors[d.oa])
+		if err != nil {
+			panic(err)
+		}
+		o = triple.NewPredicateObject(op)
 	}
 	t, err := triple.New(s, p, o)
 	if err != nil {
@@ -78,7 +98,7 @@ func (d *dspec) build() *triple.Triple {
 }
 
 func (d *dspec) eq(o *dspec) bool {
-	if d.pk != o.pk || d.ok != o.ok || (d.pk == 1 && d.pa != o.pa) {
+	if d.pk != o.pk || d.ok != o.ok || (d.pk == 1 && d.pa != o.pa) || (d.ok == 4 && d.oa != o.oa) {
 		return false
 	}
 	return verif.And(d.sb == o.sb, verif.And(d.pb == o.pb, d.ob == o.ob))
@@ -92,12 +112,14 @@ func dtriples(ds []*dspec) []*triple.Triple {
 	return out
 }
 
-// val is the value of a binding: a node, a predicate, a text literal or a time.
+// val is the value of a binding: a node, a predicate, a text literal, a time,
+// an extracted id or type string, or an int64 literal.
 type val struct {
-	kind int // 0 node, 1 predicate, 2 text literal, 3 time anchor
+	kind int // 0 node, 1 predicate, 2 text literal, 3 time anchor, 4 one-byte string (ID), 5 the string "/u" (TYPE), 6 int64 literal, 7 NULL
 	b    byte
 	pk   int // predicate kind / anchor for kind 1 and 3
 	pa   int
+	i    int64 // value of an int64 literal
 }
 
 func (v val) eq(o val) bool {
@@ -111,6 +133,10 @@ func (v val) eq(o val) bool {
 		}
 	case 3:
 		return v.pa == o.pa
+	case 5, 7:
+		return true
+	case 6:
+		return v.i == o.i
 	}
 	return v.b == o.b
 }
@@ -149,7 +175,25 @@ func cellIs(c *table.Cell, v val) bool {
 			return false
 		}
 		return t[0] == v.b
-	default:
+	case 3:
 		return c.T != nil && c.T.Equal(anchors[v.pa])
+	case 4:
+		if c.S == nil || len(*c.S) != 1 {
+			return false
+		}
+		return (*c.S)[0] == v.b
+	case 5:
+		return c.S != nil && *c.S == "/u"
+	case 6:
+		if c.L == nil || c.L.Type() != literal.Int64 {
+			return false
+		}
+		x, err := c.L.Int64()
+		if err != nil {
+			return false
+		}
+		return x == v.i
+	default:
+		return isNullCell(c)
 	}
 }
